@@ -106,6 +106,33 @@ Definition visible_methods (allow : list string) (internal : bool) (methods : li
   | _ :: _ => if internal then methods else filter (fun m => mem_str (m_selector m) allow) methods
   end.
 
+(* Package layout.  Validation is lazy: it runs when a per-service template evaluates api.all_method_settings, and each
+   service is rendered with the API *view* of the proto sub-package that owns it (API.subpackages; the top-level view
+   for services declared directly in the generated package).  A view's API.all_methods holds the methods of the
+   services whose sub-package path starts with the view's path: the top-level view sees everything, a sub-package
+   view sees its own subtree only.  Generation succeeds when every evaluated view accepts. *)
+Record lmethod := mkLMethod { lm_sub : list string; lm_desc : mdesc }.
+
+Fixpoint is_prefix (p l : list string) : bool :=
+  match p, l with
+  | [], _ => true
+  | a :: p', b :: l' => String.eqb a b && is_prefix p' l'
+  | _ :: _, [] => false
+  end.
+
+Definition full_table (ms : list lmethod) : list mdesc := map lm_desc ms.
+Definition view_table (view : list string) (ms : list lmethod) : list mdesc :=
+  map lm_desc (filter (fun m => is_prefix view (lm_sub m)) ms).
+
+(* the views that get evaluated: one per sub-package path owning a service (duplicates are harmless) *)
+Definition evaluated_views (ms : list lmethod) : list (list string) := map lm_sub ms.
+
+Definition is_accepted (o : outcome) : bool := match o with Accepted => true | _ => false end.
+Definition view_outcomes (ms : list lmethod) (settings : list setting) : list outcome :=
+  map (fun v => enforce (view_table v ms) settings) (evaluated_views ms).
+Definition generation_accepts (ms : list lmethod) (settings : list setting) : bool :=
+  forallb is_accepted (view_outcomes ms settings).
+
 (* ---- the property's own sentence about validation ----
    "generation fails unless the method exists, is unary and the field is a top-level, non-required string
     annotated with format UUID4, and duplicate selectors are rejected" *)
@@ -261,6 +288,12 @@ Definition outcome_eqb (a b : outcome) : bool :=
   | Rejected x, Rejected y => report_eqb x y
   | _, _ => false
   end.
+(* the generator's outcome under a layout: accepted when every evaluated view accepts, otherwise the report of one
+   of the rejecting views (whichever template is rendered first) *)
+Definition layout_outcome_matches (ms : list lmethod) (settings : list setting) (impl : outcome) : bool :=
+  if generation_accepts ms settings then outcome_eqb Accepted impl
+  else existsb (fun o => negb (is_accepted o) && outcome_eqb o impl) (view_outcomes ms settings).
+
 Definition fval_eqb (a b : fval) : bool :=
   match a, b with VStr x, VStr y => String.eqb x y | VList x, VList y => list_eqb String.eqb x y | _, _ => false end.
 Definition lines_opt_eqb (a : option (list string)) (b : list string) : bool :=
